@@ -998,6 +998,28 @@ pub fn my_positions(l: &Ledger, wallet: &Pubkey) -> Vec<(PositionKeys, decode::P
     v
 }
 
+/// positions whose token account names `wallet` as delegate (any delegated amount)
+pub fn delegated_positions(l: &Ledger, wallet: &Pubkey) -> Vec<(PositionKeys, decode::Position)> {
+    let mut v = Vec::new();
+    for (k, a) in l.accts.iter() {
+        if !(a.owner == ix::tok() || a.owner == ix::tok22()) || a.data.len() < 165 {
+            continue;
+        }
+        if a.data[72..76] != 1u32.to_le_bytes() || a.data[76..108] != wallet.to_bytes() {
+            continue;
+        }
+        let Some(t) = decode::token_account(&a.data) else { continue };
+        if t.amount != 1 {
+            continue;
+        }
+        let pos_key = ix::pda_position(&t.mint);
+        if let Some(p) = l.data(&pos_key).and_then(decode::position) {
+            v.push((PositionKeys { position: pos_key, mint: t.mint, token_account: *k, owner: t.owner, nft_program: a.owner }, p));
+        }
+    }
+    v
+}
+
 pub fn pool_of<'a>(w: &'a World, whirlpool: &Pubkey) -> Option<&'a PoolInfo> {
     w.pools.iter().find(|p| p.keys.whirlpool == *whirlpool)
 }
@@ -1133,7 +1155,27 @@ fn plan_lp(w: &World, knobs: &Knobs, actor: &mut Actor, l: &Ledger) -> Vec<(Tx, 
     let mine = my_positions(l, &actor.wallet);
     let rng = &mut actor.rng.clone();
     let mut flow: Vec<(Tx, String)> = Vec::new();
+    // someone else's position delegated to this wallet: act on it with this wallet's own token accounts
+    let delegated = delegated_positions(l, &actor.wallet);
+    if !delegated.is_empty() && rng.chance(1, 3) {
+        let (pk, p) = &delegated[rng.idx(delegated.len())];
+        if let (Some(pi), Some(pool)) = (pool_of(w, &p.whirlpool), l.data(&p.whirlpool).and_then(decode::pool)) {
+            let la = liq_accounts(actor, &pi.keys, pk, p);
+            let dl = rng.log_u128(knobs.liq_bits.min(40));
+            let i = match rng.below(4) {
+                0 => collect_ix(rng, &la),
+                1 => decrease_ix(rng, &la, &pool, p.lower, p.upper, (p.liquidity / 2).max(1)),
+                2 => increase_ix(rng, &la, &pool, p.lower, p.upper, dl),
+                _ => ix::update_fees_and_rewards(&pi.keys.whirlpool, &pk.position, &la.ta_lower, &la.ta_upper),
+            };
+            actor.rng = rng.clone();
+            return vec![(tx1(i), "delegate_operation".to_string())];
+        }
+    }
     let mut action = if mine.is_empty() { 0 } else { rng.below(12) };
+    if !mine.is_empty() && rng.chance(1, 14) {
+        action = 101;
+    }
     if !mine.is_empty() && knobs.has_rewards && rng.chance(1, 4) {
         action = 100;
     }
@@ -1240,6 +1282,29 @@ fn plan_lp(w: &World, knobs: &Knobs, actor: &mut Actor, l: &Ledger) -> Vec<(Tx, 
         9 => {
             let (pk, _p) = &mine[rng.idx(mine.len())];
             flow.push((tx1(close_ix(actor, pk)), "close_position".into()));
+        }
+        101 => {
+            // approve another LP as delegate of the position token (amount 0, 1 or 2), or revoke
+            let (pk, _p) = &mine[rng.idx(mine.len())];
+            let others: Vec<&Actor> = w.actors.iter().filter(|a| a.role == Role::Lp && a.wallet != actor.wallet).collect();
+            if !others.is_empty() {
+                let d = others[rng.idx(others.len())].wallet;
+                let i = if rng.chance(1, 4) {
+                    if pk.nft_program == ix::tok() {
+                        ix::from_sol(spl_token::instruction::revoke(&ix::tok(), &pk.token_account, &actor.wallet, &[]).unwrap())
+                    } else {
+                        ix::from_sol(spl_token_2022::instruction::revoke(&ix::tok22(), &pk.token_account, &actor.wallet, &[]).unwrap())
+                    }
+                } else {
+                    let amt = *rng.pick(&[1u64, 1, 1, 2, 0]);
+                    if pk.nft_program == ix::tok() {
+                        ix::from_sol(spl_token::instruction::approve(&ix::tok(), &pk.token_account, &d, &actor.wallet, &[], amt).unwrap())
+                    } else {
+                        ix::from_sol(spl_token_2022::instruction::approve(&ix::tok22(), &pk.token_account, &d, &actor.wallet, &[], amt).unwrap())
+                    }
+                };
+                flow.push((tx1(i), "approve_or_revoke_delegate".into()));
+            }
         }
         100 => {
             // collect rewards (optionally after an update in the same or a separate transaction)
